@@ -63,7 +63,12 @@ def literal_split(s):
     m = re.search(r"(['\"])[^'\"]{3,}\1", s.text)
     if not m:
         return -1
-    return m.start() + 3
+    p = m.start() + 3
+    # not directly after a blank: in fixed form that blank would sit in column
+    # 72, which is known finding F9 (see C05), not a matter of sentinels
+    while p < m.end() - 1 and s.text[p - 1] == " ":
+        p += 1
+    return p if p < m.end() - 1 else -1
 
 
 def render(prog, ch, form, nvariants):
@@ -234,13 +239,30 @@ def plan(tier, seed):
     for d in range(1, b["nest_depth"] + 1):
         for first in names:
             tasks.append(("B", tier, first, d))
+    for form in ("free", "fixed"):
+        tasks.append(("X", tier, form))
     return tasks
+
+
+# statements whose character literals contain the sentinels themselves: only
+# the sentinel at the start of the line may be touched
+SENTINEL_LITS = """
+subroutine sl(n)
+character(len=20) :: s
+s = 'flag !$ set'
+s = 'c$ and C$ and *$'
+print *, "x !$ y", '!$'
+10 s = '!$omp !$ *$ c$'
+end subroutine sl
+"""
 
 
 def run(task):
     res = Result()
     b = BOUNDS[task[1]]
-    if task[0] == "E":
+    if task[0] == "X":
+        items = [("X/sentinel-lits", corpus.from_text(SENTINEL_LITS), task[2], 2 if task[1] == "quick" else 3, 0, 1)]
+    elif task[0] == "E":
         items = [("E/" + task[2], corpus.corpus()[task[2]], task[3], task[4], task[5], task[6])]
     else:
         items = []
